@@ -52,6 +52,14 @@ THEOREMS = [
     "Klong.C09.each_calls_once_per_member",
     "Klong.C09.over_folds_single_calls",
     "Klong.C09.overSpec_log",
+    "Klong.C09.seq_calls_once_per_tuple",
+    "Klong.C09.each_pair_calls_once_per_pair",
+    "Klong.C09.each_left_calls_once_per_member",
+    "Klong.C09.each_right_calls_once_per_member",
+    "Klong.C09.each2_calls_once_per_position",
+    "Klong.C09.scan_folds_single_calls",
+    "Klong.C09.scanSpec_log",
+    "Klong.C09.over_neutral_folds_single_calls",
     "Klong.C09.store_roundtrip",
     "Klong.C09.store_set_other",
     "Klong.C09.store_last_write_wins",
@@ -485,6 +493,160 @@ def run_pycall(ctx, drv, case):
     return case
 
 
+# --------------------------------------------------------------------------- part 1b: adverbs over repeats
+
+# adverb call forms: (arity of f, needs a left operand: None / "atom" / "list")
+ADVERBS = {"each": (1, None), "over": (2, None), "scan": (2, None), "eachpair": (2, None),
+           "eachleft": (2, "atom"), "eachright": (2, "atom"), "each2": (2, "list"),
+           "overn": (2, "atom"), "scann": (2, "atom")}
+ADVERB_TEXT = {"each": "f'{b}", "over": "f/{b}", "scan": "f\\{b}", "eachpair": "f:'{b}",
+               "eachleft": "{a} f:\\{b}", "eachright": "{a} f:/{b}", "each2": "{a} f'{b}",
+               "overn": "{a} f/{b}", "scann": "{a} f\\{b}"}
+ATOM_LITS = ["5", "0", "0cq", "0ca", '"ab"', "[1 2]"]
+LIST_POOLS = [["7"], ["1", "2"], ['"a"', '"bc"'], ["0ca", "0cb"], ["[1 2]", "[3]"], ["7", '"a"', "0cx"]]   # no reals: a scan result mixing a real member with integer returns is coerced by kg_asarray (C01 territory)
+
+
+def gen_operand(rng, allow_empty=True):
+    """a string or list literal, short alphabet so that members REPEAT"""
+    n = rng.choice([0, 1, 2, 2, 3, 3, 4, 5, 6] if allow_empty else [1, 2, 3, 3, 4, 5])
+    if rng.random() < 0.55:
+        alpha = rng.choice(["l", "ab", "abc", "helo", "zz"])
+        return '"' + "".join(rng.choice(alpha) for _ in range(n)) + '"'
+    pool = rng.choice(LIST_POOLS)
+    return "[" + " ".join(rng.choice(pool) for _ in range(n)) + "]"
+
+
+def gen_adverb(rng, form, sig, where):
+    need = ADVERBS[form][1]
+    case = dict(kind="adverb", form=form, sig=list(sig), where=where,
+                b=gen_operand(rng, allow_empty=(form != "each2")))
+    if need == "atom":
+        case["a"] = rng.choice(ATOM_LITS)
+    elif need == "list":
+        case["a"] = gen_operand(rng, allow_empty=False)
+    base = 1000 + rng.randrange(500)
+    case["rets"] = [base + i for i in range(12)]          # the return value depends on the call count
+    case["frame"] = [rng.choice([901, 902, 903, 17, 0]) for _ in range(3)] if where == "nested" else []
+    case["ckind"] = rng.choice(CKINDS)
+    return case
+
+
+def _norm(v):
+    """the members of a string are characters, however the implementation represents them"""
+    from klongpy.core import KGChar
+    if isinstance(v, (str, np.str_)) and len(v) == 1:
+        return KGChar(str(v))
+    return v
+
+
+def _members(v):
+    return [_norm(x) for x in v] if isinstance(v, (str, list, tuple, np.ndarray)) and np.ndim(v) != 0 or isinstance(v, str) else [_norm(v)]
+
+
+def run_adverb(ctx, drv, case):
+    """an adverb applied to a recording callable over a string / list with repeated members"""
+    it = Interner()
+    sig = tuple(case["sig"])
+    form, where = case["form"], case["where"]
+    w = World(list(case["rets"]))
+    klong = w.klong
+    klong["f"] = w.make(sig, 1, case.get("ckind", "plain"))
+    frame = case["frame"]
+    try:
+        bs = _members(klong(case["b"]))
+        need = ADVERBS[form][1]
+        a_val = klong(case["a"]) if need else None
+        a_list = _members(a_val) if need == "list" else None
+        a_atom = _norm(a_val) if need == "atom" else None
+        body = ADVERB_TEXT[form].format(a=case.get("a", ""), b=case["b"])
+        prog = body if not frame else "{x;y;z;" + body + "}(" + ";".join(str(v) for v in frame) + ")"
+    except Exception as e:
+        raise common.Infra(f"C09 adverb case construction failed: {case}: {e!r}")
+    case = dict(case, program=prog)
+    w.log.clear()
+    try:
+        result = klong(prog)
+        raised = None
+    except Exception as e:
+        result, raised = None, e
+    # ---- oracle: the documented expansion, one application per member / pair / step, in order
+    rets = w.rets
+    fold = form in ("over", "scan", "overn", "scann")
+    if fold:
+        if form in ("over", "scan"):
+            start, rest = (bs[0], bs[1:]) if bs else (None, [])
+        else:
+            start, rest = a_atom, bs
+        calls, accs, acc = [], [], start
+        for i, e in enumerate(rest):
+            calls.append([acc, e])
+            acc = rets[i]
+            accs.append(acc)
+        if form == "over":
+            shape, exp = ("list", []) if not bs else ("val", acc)
+        elif form == "overn":
+            shape, exp = "val", acc
+        elif form == "scan":
+            shape, exp = "list", ([] if not bs else [start] + accs)
+        else:
+            shape, exp = ("val", a_atom) if not bs else ("list", [start] + accs)
+    else:
+        if form == "each":
+            calls = [[e] for e in bs]
+        elif form == "eachpair":
+            calls = [[x, y] for x, y in zip(bs, bs[1:])] if len(bs) > 1 else []
+        elif form == "eachleft":
+            calls = [[a_atom, e] for e in bs]
+        elif form == "eachright":
+            calls = [[e, a_atom] for e in bs]
+        else:
+            calls = [[x, y] for x, y in zip(a_list, bs)]
+        shape = "list"
+        exp = list(bs) if form == "eachpair" and len(bs) <= 1 else [rets[i] for i in range(len(calls))]
+    exp_log = [(1, "klong" in sig, [canon(_norm(v)) for v in t]) for t in calls]
+    obs_log = [(cid, k, [canon(_norm(v)) for v in args]) for cid, k, args in w.log]
+    key = f"adverb:{form}:{'string' if case['b'].startswith(chr(34)) else 'list'}"
+    if raised is None:
+        obs_members = _members(result) if shape == "list" else None
+        obs_res = [canon(v) for v in obs_members] if shape == "list" else canon(_norm(result))
+    exp_res = [canon(_norm(v)) for v in exp] if shape == "list" else canon(_norm(exp))
+    if raised is not None:
+        ctx.oracle_fail(key, case, dict(calls=exp_log, value=exp_res),
+                        f"raises {type(raised).__name__}: {raised}; calls={obs_log}",
+                        "the adverb must apply the callable once per member and return the results")
+    elif obs_log != exp_log:
+        ctx.oracle_fail(key, case, dict(calls=exp_log), dict(calls=obs_log),
+                        "the callable must be invoked exactly once per member / pair / step, in order, repeats included")
+    elif obs_res != exp_res:
+        ctx.oracle_fail(key, case, dict(value=exp_res), dict(value=obs_res),
+                        "every result slot must hold the return value of its own application")
+    # ---- model
+    if drv is not None:
+        drv.ask(f"new mode=positional rets={it.toks(rets)}")
+        drv.ask(f"set name=f kind=py id=1 sig={sig_wire(sig)}")
+        left = ""
+        if ADVERBS[form][1] == "atom":
+            left = f" left={it.tok(a_atom)}"
+        elif ADVERBS[form][1] == "list":
+            left = f" left={it.toks(a_list)}"
+        model = drv.ask(f"pycall form={form} name=f args={it.toks(bs)} frame={it.toks(frame)} slots={left}")
+        if raised is not None:
+            impl = err_name(raised) + " log="
+        elif shape == "list":
+            impl = "list:" + it.toks(obs_members) + " log="
+        else:
+            impl = "val:" + str(it.tok(_norm(result))) + " log="
+        impl += ";".join(f"{cid}/{1 if k else 0}/{'.'.join(str(it.tok(_norm(a))) for a in args)}" for cid, k, args in w.log)
+        if model != impl:
+            ctx.mismatch(f"Klong.C09.{form} vs klongpy.adverbs", case, model, impl)
+    ctx.count(("adverb", form, tuple(sig), where, case["b"], case.get("a")))
+    ctx.bump("adverb:" + form)
+    ctx.bump("operand:" + ("string" if case["b"].startswith('"') else "list"))
+    if len(set(json.dumps(canon(m)) for m in bs)) < len(bs):
+        ctx.bump("operand-with-repeats")
+    return case
+
+
 # --------------------------------------------------------------------------- part 2/3: histories
 
 NAMES = ["f", "g", "h"]
@@ -840,6 +1002,8 @@ def run_case(ctx, drv, case):
         run_pycall(ctx, drv, case)
     elif case.get("kind") == "history":
         run_history(ctx, drv, case)
+    elif case.get("kind") == "adverb":
+        run_adverb(ctx, drv, case)
     else:
         raise common.Infra(f"unknown case kind: {case.get('kind')}")
 
@@ -877,6 +1041,14 @@ def run(ctx):
                         c = run_pycall(ctx, drv, gen_pycall(ctx.rng, sig, form, where))
                         if ctx.rng.random() < 0.01:
                             ctx.sample(c)
+        # adverbs over strings / lists whose members repeat, recording callables returning call-count values
+        for form, (ar, _) in ADVERBS.items():
+            for sig in [s_ for s_ in SIGS if sig_arity(s_) == ar]:
+                for where in ("top", "nested"):
+                    for _ in range(2 if quick else 14):
+                        c = run_adverb(ctx, drv, gen_adverb(ctx.rng, form, sig, where))
+                        if ctx.rng.random() < 0.004:
+                            ctx.sample(c)
         # module functions with arbitrary parameter names, remapped to x,y,z by .py (sys_fn._handle_import)
         pool = ["a", "b", "c", "p", "q", "value", "y", "z"]
         for ar in range(4):
@@ -905,7 +1077,7 @@ def replay(ctx, case):
     drv = Driver("c09") if getattr(ctx, "driver_ok", True) else None
     c = case.get("case", case)
     try:
-        if c.get("kind") in ("pycall", "history"):
+        if c.get("kind") in ("pycall", "history", "adverb"):
             run_case(ctx, drv, c)
         else:
             run(ctx)
